@@ -11,6 +11,11 @@ R16a (cont.) a time argument that is a local or parameter of a generator bound b
 R16b Tag's sink methods store their time parameter in self.tick_time on the changed path and
      as_readonly / to_model_tag copy it unmodified.
 R16c the first-tick restamp in Engine.tick covers every tag collection the engine reports.
+R16d a change of what is reported is stamped: the reported value of a tag is `simulated_value if simulated else value`. In every
+     method of Tag and its subclasses (constructors aside), every write of one of those three fields lies on paths that also
+     write self.tick_time (or go through one of the sink methods, which do) before the method ends - a write that bypasses the
+     stamp leaves the new value under the time of an older tick, and the aggregator persists a value only if its time is later
+     than the last persisted one.
 Decides the provenance (dimension and clock) of every reported time, for all programs and
 schedules; does not decide monotonicity of the clock itself.
 """
@@ -51,6 +56,7 @@ def run(ctx) -> None:
     ctx.rule("R16a", "time arguments of tag writers have kind TICK_TIME")
     ctx.rule("R16b", "Tag stores and copies the time unmodified")
     ctx.rule("R16c", "first-tick restamp covers all reported collections")
+    _r16d(ctx, tag_classes)
     ctx.assumptions = ["Engine.tick(tick_time, increment_time) is invoked by the engine timer with the engine clock time "
                        "of the tick and the elapsed duration (seed of the analysis)",
                        "user UOD modules (engine/configuration, external files) are outside the analysed scope"]
@@ -278,3 +284,49 @@ def _stale_across_yield(f, call, targ):
             if after is not None:
                 return ("parameter" if sid == g.entry.id else "local", yn.lineno)
     return None
+
+
+def _r16d(ctx, tag_classes):
+    ctx.rule("R16d", "every write of a reported field is accompanied by a write of tick_time")
+    fields = ("value", "simulated", "simulated_value")
+    n_sites = 0
+    for cls in tag_classes:
+        if "/test" in cls.module.path or ".test." in cls.module.name:
+            continue
+        for mname, m in sorted(cls.methods.items()):
+            if mname in ("__init__", "apply_state"):
+                continue
+            selfn = m.node.args.args[0].arg if m.node.args.args else "self"
+            g = cfg_of(m)
+            writes = [n for n in g.nodes if n.kind == "stmt" and any(t.attr in fields and isinstance(t.value, ast.Name) and t.value.id == selfn
+                                                                      for t, v, st in assigned_attrs(n.ast))]
+            if not writes:
+                continue
+            ctx.analysed(m)
+
+            def stamps(n, selfn=selfn):
+                if n.ast is None:
+                    return False
+                if n.kind == "stmt" and any(t.attr == "tick_time" and isinstance(t.value, ast.Name) and t.value.id == selfn for t, v, st in assigned_attrs(n.ast)):
+                    return True
+                return any(call_attr(c) in SINK_POS for c in n.calls())
+            stamped_before = lambda w: any(stamps(x) and g.dominates(x, w) for x in g.nodes)
+            n_sites += len(writes)
+            fl = sorted({t.attr for w in writes for t, v, st in assigned_attrs(w.ast) if t.attr in fields})
+            inst = f"{cls.name}.{mname}: writes of {'/'.join(fl)} are stamped with the tick time"
+            bad = None
+            for w in writes:
+                p = None if stamped_before(w) else g.path_to_exit_avoiding([w.id], stamps, follow_exc=False)
+                if p is not None and bad is None:
+                    bad = (w, p)
+            if bad is None:
+                ctx.ok("R16d", inst)
+            else:
+                w, p = bad
+                ctx.fail("R16d", m, w.ast, inst, f"`{norm(w.ast)[:60]}` changes what the tag reports but tick_time keeps the time of an earlier tick "
+                         "(the method has no time to stamp with): the changed value is reported under an old time - e.g. `Simulate: X = 5 L/h / "
+                         "Noop: 4 / Simulate off: X` reports X 5.0 -> 1.0 in tick 12 stamped with tick 4; Block Time / Scope Time reset to 0.0 on "
+                         "Restart are reported under the time of the last tick of the previous run - and the aggregator, which persists only "
+                         "values with a later time, drops it", p)
+    if n_sites < 6:
+        raise AnchorError(f"R16d: only {n_sites} writes of reported tag fields found (floor 6)")
